@@ -23,8 +23,12 @@ RULE = ("scenes from the seed: 4..6 (thorough 4..8) cells per axis (>= 2*thickne
         "for 2 steps with active PML from random states s1, s2 and a s1 + b s2 (sources at the matching factors) "
         "superposes; (2) the probed source terms are linear in the factors; (3) one forward() step "
         "(simulate_boundaries=False) from a s1 + b s2 with sources vs the Lean model; (4) compute_energy / "
-        "compute_poynting_flux vs model; (5) step_cpml cells vs model. non-trivial = both partial runs end with non-zero "
-        "fields (sources really on).")
+        "compute_poynting_flux vs model; (5) step_cpml cells vs model. Removal scenes (always two in quick: a TILTED magnetic "
+        "and a TILTED electric PointDipoleSource, azimuth and elevation != 0, plus a neighbouring second source whose field "
+        "reaches the dipole cell): three SEPARATE placements (source 0 only, source 1 only, both) run through run_fdtd, fields "
+        "and Field/Phasor records of the joint run = sum of the partial runs; and forward() from a non-zero state with the "
+        "tilted dipole alone vs the model (injected increment independent of the field). non-trivial = both partial runs end "
+        "with non-zero fields (sources really on; removal scenes: and the second source's field is non-zero in the dipole cell).")
 
 TOL = 1e-9
 AXPAIRS = [("pml", "pml"), ("pml", "pml"), ("periodic", "periodic"), ("periodic", "periodic"), ("pec", "pec"), ("pmc", "pmc"),
@@ -99,7 +103,8 @@ def _switch(f, name):
     return {"default": f.OnOffSwitch(), "start": f.OnOffSwitch(start_time=2.5e-16), "interval": f.OnOffSwitch(interval=2)}[name]
 
 
-def make_objects(c, vol):
+def make_objects(c, vol, only=None):
+    """sources (all, or only the indices in `only` — the others are really absent from the object list) + detectors"""
     j = Y.J()
     f, jnp = j["fdtdx"], j["jnp"]
     objs, cons = [], []
@@ -107,10 +112,25 @@ def make_objects(c, vol):
     wave = f.WaveCharacter(wavelength=wl)
     uniform = c["widths"] is None
     for i, s in enumerate(c["sources"]):
+        if only is not None and i not in only:
+            continue
         prof = f.SingleFrequencyProfile() if s["profile"] == "cw" else f.GaussianPulseProfile(
             spectral_width=f.WaveCharacter(wavelength=3 * wl), center_wave=wave)
         ax = s["axis"]
-        if s["kind"] in ("uniform", "gauss"):
+        if s["kind"] == "hard":
+            from fdtdx.objects.sources.source import HardConstantAmplitudePlanceSource
+            shp = [None, None, None]
+            shp[ax] = 1
+            pol = [0.0, 0.0, 0.0]
+            pol[(ax + 1 + s["pol"] % 2) % 3] = 1.0
+            o = HardConstantAmplitudePlanceSource(partial_grid_shape=tuple(shp), wave_character=wave, direction=s["direction"],
+                                                  fixed_E_polarization_vector=tuple(pol), amplitude=0.8, switch=_switch(f, s["switch"]),
+                                                  static_amplitude_factor=1.0, name=f"src{i}")
+            if uniform:
+                cons.append(o.set_grid_coordinates(axes=ax, sides="-", coordinates=s["pos"][ax]))
+            else:
+                cons.append(o.place_at_center(vol, axes=(ax,)))
+        elif s["kind"] in ("uniform", "gauss"):
             shp = [None, None, None]
             shp[ax] = 1
             pol = [0.0, 0.0, 0.0]
@@ -127,6 +147,7 @@ def make_objects(c, vol):
             o = f.PointDipoleSource(partial_grid_shape=(1, 1, 1), wave_character=wave, polarization=s["pol"],
                                     source_type="electric" if s["kind"] == "dipole_e" else "magnetic",
                                     temporal_profile=prof, switch=_switch(f, s["switch"]), static_amplitude_factor=1.0,
+                                    azimuth_angle=float(s.get("azimuth", 0.0)), elevation_angle=float(s.get("elevation", 0.0)),
                                     name=f"src{i}")
             if uniform:
                 cons.append(o.set_grid_coordinates(axes=(0, 1, 2), sides=("-", "-", "-"), coordinates=tuple(s["pos"])))
@@ -186,11 +207,11 @@ def _dt(c):
         return None
 
 
-def scene_of(c, complex_fields=None):
+def scene_of(c, complex_fields=None, only=None):
     dt = _dt(c)
     time = (c["steps"] + 0.01) * dt if dt else 1e-15
     sc = Y.build(c["shape"], c["faces"], widths=c["widths"], pml_thickness=c["pml_thickness"], time=time,
-                 gradient=c["gradient"], extra_fn=lambda vol: make_objects(c, vol), complex_fields=complex_fields)
+                 gradient=c["gradient"], extra_fn=lambda vol: make_objects(c, vol, only), complex_fields=complex_fields)
     return sc
 
 
@@ -281,6 +302,116 @@ def run_oracle(c, sc=None, info=None):
                 if not e <= TOL:
                     return f"{kind} record {name}/{key} does not scale with the square of the common factor {cc}: {e:.3e} (relative)"
     return None
+
+
+def removal_oracle(c, scenes=None, info=None):
+    """superposition across SEPARATE placements: source A only, source B only, A and B (a source is really absent from
+    the object list, not just scaled to zero); fields and linear records of the A+B run = sum of the two partial runs"""
+    j = Y.J()
+    f, jax = j["fdtdx"], j["jax"]
+    scs = scenes or [scene_of(c, only=[0]), scene_of(c, only=[1]), scene_of(c, only=[0, 1])]
+    amps = c["amp2"]
+    inv_eps, sig_e, _ = materials(c, scs[0])
+    R = []
+    for sc in scs:
+        arrays = Y.with_state(sc, inv_eps=inv_eps, sig_e=sig_e)
+        st = f.run_fdtd(arrays=arrays, objects=with_amps(sc, amps), config=sc.config, key=jax.random.PRNGKey(0), show_progress=False)
+        R.append({"E": np.asarray(st[1].fields.E), "H": np.asarray(st[1].fields.H),
+                  "det": {k: {kk: np.asarray(vv) for kk, vv in v.items()} for k, v in st[1].detector_states.items()}})
+    RA, RB, RAB = R
+    if info is not None:
+        info["on1"] = _mx(RA["E"]) > 0 or _mx(RA["H"]) > 0
+        info["on2"] = _mx(RB["E"]) > 0 or _mx(RB["H"]) > 0
+        # does the field of source B reach the cell of source A (the tilted dipole)?
+        p = tuple(c["sources"][0]["pos"])
+        info["reaches"] = bool(np.any(RB["H"][(slice(None),) + p] != 0) or np.any(RB["E"][(slice(None),) + p] != 0))
+    for nm in ("E", "H"):
+        e = _rel(RAB[nm], RA[nm] + RB[nm], max(_mx(RA[nm]), _mx(RB[nm])))
+        if not e <= TOL:
+            return f"final {nm} with both sources placed differs from (source 0 alone) + (source 1 alone) by {e:.3e} (relative; separate placements)"
+    for name, st in RAB["det"].items():
+        if name.split("_")[1] not in ("field", "phasor"):
+            continue
+        for key, v in st.items():
+            v1, v2 = RA["det"][name][key], RB["det"][name][key]
+            e = _rel(v, v1 + v2, max(_mx(v1), _mx(v2)))
+            if not e <= TOL:
+                return f"record {name}/{key} with both sources placed differs from the sum of the single-source runs by {e:.3e}"
+    return None
+
+
+def single_source_increment(ctx, c, sc):
+    """the tilted dipole alone, non-zero initial field: forward() must equal (source-free step of the state) + (term
+    probed on zero fields) — compared with the model; returns an implementation-side detail as well"""
+    inv_eps, sig_e, r = materials(c, sc)
+    n3 = (3,) + tuple(c["shape"])
+    E0, H0 = r.standard_normal(n3), r.standard_normal(n3)
+    t = min(c["t"], c["steps"] - 1)
+    objs = with_amps(sc, c["amp2"])
+    jE, jH = probe_sources(sc, objs, t, inv_eps, sig_e, c["shape"])
+    iE, iH = _fwd(sc, objs, Y.with_state(sc, E0, H0, inv_eps=inv_eps, sig_e=sig_e), t, 1, sim=False)
+    inv_mu = np.asarray(sc.arrays.inv_permeabilities, dtype=np.float64)
+    line = Y.request(sc, "fwd", E0, H0, inv_eps, inv_mu, sig_e, None, (jE, jH), 1)
+    mE, mH = Y.decode_fields(ctx.driver.ask(line), c["shape"])
+    ctx.expect_close("forward from a non-zero state with the tilted dipole alone", c, np.concatenate([iE.ravel(), iH.ravel()]),
+                     np.concatenate([mE.ravel(), mH.ravel()]))
+    # implementation only: the increment does not depend on the field
+    zE, zH = _fwd(sc, with_amps(sc, [0.0, 0.0]), Y.with_state(sc, E0, H0, inv_eps=inv_eps, sig_e=sig_e), t, 1, sim=False)
+    # (H is only comparable when nothing was injected into E: the E increment also changes H through the curl)
+    for nm, got, free, jj in ((("E", iE, zE, jE),) + ((("H", iH, zH, jH),) if _mx(jE) == 0 else ())):
+        # relative to the field scale: got - free cancels O(1) fields, so a tiny increment carries their round-off
+        e = _rel(got - free, jj, max(_mx(jj), _mx(got)))
+        if not e <= TOL:
+            return f"increment injected into {nm} by the dipole at t={t} depends on the field (differs from the increment on zero fields by {e:.3e})"
+    return None
+
+
+def gen_removal_case(rng, thorough, which, force=None):
+    """tilted (azimuth, elevation != 0) magnetic / electric dipole + a second source next to it"""
+    c = gen_case(rng, thorough)
+    n = int(rng.randint(5, 6))
+    c["mode"] = "removal"
+    c["shape"], c["widths"], c["pml_thickness"] = [n, n, n], None, 2
+    ax_p = int(rng.randint(0, 2))
+    faces = {}
+    for ax in range(3):
+        kind = rng.choice(["periodic", "pec", "none", "pmc"]) if ax != ax_p else "periodic"
+        faces[Y.FACES[2 * ax]] = faces[Y.FACES[2 * ax + 1]] = kind
+    c["faces"] = faces
+    pos = [int(rng.randint(1, n - 2)) for _ in range(3)]
+    tilted = {"kind": "dipole_m" if which == "m" else "dipole_e", "axis": 0, "direction": "+", "profile": rng.choice(["cw", "pulse"]),
+              "switch": "default", "pol": int(rng.randint(0, 2)), "pos": pos,
+              "azimuth": rng.choice([-1.0, 1.0]) * rng.uniform(15.0, 70.0), "elevation": rng.choice([-1.0, 1.0]) * rng.uniform(10.0, 60.0)}
+    second_kind = rng.choice(["dipole_e", "dipole_m", "uniform"]) if thorough else ("dipole_e" if which == "m" else "uniform")
+    ax2 = int(rng.randint(0, 2))
+    pos2 = list(pos)
+    pos2[ax2] = pos[ax2] + (1 if pos[ax2] + 1 <= n - 2 else -1)
+    second = {"kind": second_kind, "axis": ax2, "direction": rng.choice(["+", "-"]), "profile": "cw", "switch": "default",
+              "pol": int(rng.randint(0, 2)), "pos": pos2}
+    c["sources"] = [tilted, second]
+    c["detectors"] = [{"kind": "field", "exact": False, "switch": "default", "reduce": False, "region": "full", "components": None},
+                      {"kind": "phasor", "exact": True, "switch": "default", "reduce": False, "region": "full", "components": ["Hx", "Hy", "Hz"]}]
+    c["steps"] = int(rng.randint(7, 9))
+    c["gradient"] = None
+    c["amp2"] = [rng.choice([-1.0, 1.0]) * rng.uniform(0.5, 2.0), rng.choice([-1.0, 1.0]) * rng.uniform(0.5, 2.0)]
+    if force:
+        c.update(force)
+    return c
+
+
+def one_removal_case(ctx, c, sample=False):
+    scs = [scene_of(c, only=[0]), scene_of(c, only=[1]), scene_of(c, only=[0, 1])]
+    info = {}
+    d0 = removal_oracle(c, scs, info)
+    d1 = single_source_increment(ctx, c, scs[0])
+    nt = (tuple(c["shape"]), c["seed"]) if info.get("on1") and info.get("on2") and info.get("reaches") else None
+    ctx.case(sample={k: c[k] for k in ("mode", "shape", "faces", "sources", "steps", "amp2", "seed")} if sample else None, nontrivial=nt,
+             mode="removal", tilted=c["sources"][0]["kind"], second=c["sources"][1]["kind"], second_reaches_dipole_cell=bool(info.get("reaches")))
+    ctx.impl_property_evals += 2
+    for d in (d0, d1):
+        if d:
+            ctx.violation(c, d)
+            break
 
 
 # ------------------------------------------------------------------------------------------ eager forward pieces
@@ -439,19 +570,26 @@ def _fix_positions(c):
 
 
 def run(ctx):
-    n = ctx.scale(3, 24)
-    cases = [_fix_positions(gen_case(ctx.rng, ctx.thorough, f)) for f in FORCED[:n]]
+    n = ctx.scale(2, 20)
+    cases = [_fix_positions(gen_case(ctx.rng, ctx.thorough, f)) for f in (FORCED if ctx.thorough else FORCED[:2])]
     while len(cases) < n:
         cases.append(gen_case(ctx.rng, ctx.thorough))
     if not ctx.thorough:
-        # quick: one generated scene replaces the third forced one for seeds other than 0
-        if ctx.seed != 0:
-            cases[2] = gen_case(ctx.rng, False)
+        # quick: a generated scene (seed 0: the third forced one) replaces the second forced one for other seeds
+        cases[1] = gen_case(ctx.rng, False) if ctx.seed % 2 == 1 else _fix_positions(gen_case(ctx.rng, False, FORCED[1 + (ctx.seed // 2) % 2]))
     for i, c in enumerate(cases):
         one_case(ctx, c, sample=i < 2)
+    # sources really removed from the object list: tilted magnetic and tilted electric dipole + a neighbour source
+    rem = [gen_removal_case(ctx.rng, ctx.thorough, "m"), gen_removal_case(ctx.rng, ctx.thorough, "e")]
+    for _ in range(ctx.scale(0, 6)):
+        rem.append(gen_removal_case(ctx.rng, True, ctx.rng.choice(["m", "e"])))
+    for i, c in enumerate(rem):
+        one_removal_case(ctx, c, sample=i == 0)
 
 
 def property_fails(c):
+    if c.get("mode") == "removal":
+        return removal_oracle(c)
     sc = scene_of(c)
     d = run_oracle(c, sc)
     if d:
@@ -469,6 +607,13 @@ def search(ctx, hints):
                 ctx.violation(h, d)
                 return
     rng = ctx.rng.fork()
+    for i in range(ctx.scale(4, 12)):
+        c = gen_removal_case(rng, i >= 2, "m" if i % 2 == 0 else "e")
+        ctx.impl_property_evals += 1
+        d = property_fails(c)
+        if d:
+            ctx.violation(c, d)
+            return
     for i in range(ctx.scale(8, 40)):
         c = gen_case(rng, False)
         if i % 2 == 0:
